@@ -282,6 +282,14 @@ func lawConservation(input []byte, pieces [][]byte, who string) *verdict {
 }
 
 func lawUTF8(pieces [][]byte, who string) *verdict {
+	return lawUTF8In(nil, pieces, who)
+}
+
+// lawUTF8In: the law is conditional on the input being valid UTF-8 (input nil = known valid).
+func lawUTF8In(input []byte, pieces [][]byte, who string) *verdict {
+	if input != nil && !utf8.Valid(input) {
+		return nil
+	}
 	for i, p := range pieces {
 		if !utf8.Valid(p) {
 			j := 0
@@ -410,7 +418,7 @@ func evaluate(c *fw.Ctx, w *wcase, r *wresult) *verdict {
 	switch w.Kind {
 	case "split":
 		who := "SplitToSize"
-		if v := lawUTF8(r.Pieces, who); v != nil {
+		if v := lawUTF8In(w.Text, r.Pieces, who); v != nil {
 			return v
 		}
 		if v := lawConservation(w.Text, r.Pieces, who); v != nil {
@@ -445,7 +453,7 @@ func evaluate(c *fw.Ctx, w *wcase, r *wresult) *verdict {
 	case "docchunk":
 		who := "ChunkDocumentWithConfig"
 		all := []byte(strings.Join(stringsOf(w.Texts), "\n\n"))
-		if v := lawUTF8(r.Pieces, who); v != nil {
+		if v := lawUTF8In(all, r.Pieces, who); v != nil {
 			return v
 		}
 		if v := lawConservation(all, r.Pieces, who); v != nil {
@@ -460,7 +468,7 @@ func evaluate(c *fw.Ctx, w *wcase, r *wresult) *verdict {
 		}
 	case "layout":
 		all := []byte(strings.Join(stringsOf(w.Texts), "\n\n"))
-		if v := lawUTF8(r.Own, "Chunker.Chunk"); v != nil {
+		if v := lawUTF8In(all, r.Own, "Chunker.Chunk"); v != nil {
 			return v
 		}
 		if v := lawConservation(all, r.Own, "Chunker.Chunk"); v != nil {
